@@ -21,7 +21,7 @@ ASSUMPTIONS = ["well-formed regime (hv/wf.py); iteration reference hv/ref/load.p
 FLOAT_KEYS = ["control", "test"]          # fractional-time-unit workload class (hv/shard.py)
 PLAN = {"quick": {"shards": 16, "cases": 480, "timeout": 900}, "thorough": {"shards": 16, "cases": 5000, "timeout": 3400}}
 FLOORS = {"quick": {"distinct_nontrivial": 60, "names_judged": 3000, "proper_rank_subsets": 25, "self_comparisons": 25, "short_name_calls": 60, "identical_labels": 60, "ops_diff_called_first": 80, "fractional_duration_rows": 100,
-                    "cases_with_a_name_under_two_categories": 60, "tables_after_a_table_in_the_other_naming_mode": 100,
+                    "cases_with_a_name_under_two_categories": 60, "tables_after_a_table_in_the_other_naming_mode": 100, "labeled_trace_from_trace_loaded": 60,
                     "class_added": 200, "class_deleted": 200, "class_increased": 100, "class_decreased": 100, "class_unchanged": 500},
           "thorough": {"distinct_nontrivial": 1200, "names_judged": 100000, "proper_rank_subsets": 500, "self_comparisons": 500, "short_name_calls": 1200, "identical_labels": 1000, "ops_diff_called_first": 1400, "fractional_duration_rows": 2000,
                        "cases_with_a_name_under_two_categories": 1000, "tables_after_a_table_in_the_other_naming_mode": 2000,
@@ -107,6 +107,8 @@ def gen_case(rnd, tier: str, i: Any) -> Dict[str, Any]:
     labels = rnd.choice([["Control", "Test"], ["Control", "Test"], ["baseline", "candidate"], ["run", "run"], [None, None]])
     return {"control": control, "test": control if self_cmp else test, "self": self_cmp, "mode": mode, "labels": labels,
             "classes_first": rnd.random() < 0.5, "dual_cat": dual_cat, "second_table": rnd.random() < 0.4,
+            # what the LabeledTrace is made from: a directory, or a Trace object in one of the states a session leaves it in
+            "made_from": [rnd.choice(["dir", "dir", "trace_fresh", "trace_parsed", "trace_loaded"]) for _ in range(2)],
             "sel": {"control_rank": sel_ranks(), "test_rank": sel_ranks(), "control_iteration": sel_iter(), "test_iteration": sel_iter(),
                     "device": rnd.choice(["ALL", "CPU", "GPU"]), "short": rnd.random() < 0.3}}
 
@@ -183,8 +185,22 @@ def run_case(case: Dict[str, Any], ctx: Any) -> core.CaseResult:
         core.write_trace_files(dc, case["control"])
         core.write_trace_files(dt, case["test"])
         lab = case.get("labels", ["Control", "Test"])
-        ok, lc = drv.guard(res, "LabeledTrace(control)", LabeledTrace, lab[0], None, dc)
-        ok2, lt = drv.guard(res, "LabeledTrace(test)", LabeledTrace, lab[1], None, dt)
+        def _source(how, d):  # noqa: ANN001
+            if how == "dir":
+                return None, d
+            t = drv.new_trace(d)
+            if how == "trace_parsed":
+                t.parse_traces(use_multiprocessing=False)
+            elif how == "trace_loaded":
+                t.load_traces(use_multiprocessing=False)        # aligned and trimmed, as TraceAnalysis leaves it
+            res.counters[f"labeled_trace_from_{how}"] += 1
+            return t, None
+
+        mf = case.get("made_from", ["dir", "dir"])
+        tc, dcc = _source(mf[0], dc)
+        tt, dtt = _source(mf[1], dt)
+        ok, lc = drv.guard(res, "LabeledTrace(control)", LabeledTrace, lab[0], tc, dcc)
+        ok2, lt = drv.guard(res, "LabeledTrace(test)", LabeledTrace, lab[1], tt, dtt)
         if not (ok and ok2):
             return res
         if lc.label == lt.label:
